@@ -393,6 +393,20 @@ func (c02) Run(plan interface{}, schedSeed uint64, replay []simrt.Choice, lenien
 			v.Violate("twin", "second connection disturbed", "a second connection receiving [RETURNSTATUS DONE(more) %d x RETURNSTATUS DONE(more) DONE(final)] at the same time got %d packages (%d expected) %s", twinStatuses, got.TwinPkgs, 4+twinStatuses, got.TwinErr)
 		}
 	}
+	// the unfragmented delivery is itself checked against the zoo's description of the response: every visible
+	// package once, plus at most the one synthetic final DONE (validated encodings only)
+	vis, allValidated := 0, true
+	for _, n := range p.Entries {
+		if isDisputed[n] {
+			allValidated = false
+		}
+		if zooIndex[n].Visible {
+			vis++
+		}
+	}
+	if nb := len(pkgsOnly(base.Recs)); allValidated && nb != vis && nb != vis+1 {
+		v.Violate("wrong-packages", "unfragmented delivery does not match the response", "the response %v has %d visible packages, delivered in one packet and one read the channel handed out %d", p.Entries, vis, nb)
+	}
 	for _, ch := range got.Changed {
 		v.Violate("aliasing", "a delivered package changed afterwards", "%s (cuts %v, read mode %s, entries %v)", ch, p.Cuts, p.ReadMode, p.Entries)
 	}
